@@ -111,8 +111,10 @@ class Setup:
             return self.t(**ns)
         return run
 
-    def execute(self, policy, line_mode=False, watch=(), warm=False, observer=None):
+    def execute(self, policy, line_mode=False, watch=(), warm=False, observer=None, lines=None):
         s = sched.Scheduler(self.n)
+        for base, ln in (lines or ()):
+            s.line_watch.setdefault(base, set()).add(ln)
         self.ref[0] = s
         h = sched.Hooks()
         h.install(s, watch)
@@ -144,13 +146,15 @@ def solo_results(name, n):
 def acc_name(kind, detail):
     if kind in ('acq', 'rel'):
         return kind
+    if kind == 'u':
+        return 'u:line:%s:%d' % (detail[1], detail[2])
     if isinstance(detail, str):
         return {('r', '_v_cooked'): 'rc', ('w', '_v_blocks'): 'wb', ('w', '_v_cooked'): 'wc', ('r', '_v_blocks'): 'rb'}.get(
             (kind, detail), kind + ':' + detail)
     return '%s:%s#%d.%s' % (kind, detail[0], detail[2], detail[1])
 
 
-def prepass(name, n):
+def prepass(name, n, lines=()):
     """solo runs under access hooks: the watch set ((class, attribute) written after publication) and each
     thread's render-phase access program.  Every thread renders the same compiled template twice; a write that
     happens only in the first render is a lazy initialisation, guarded by the read of the same object that
@@ -163,9 +167,11 @@ def prepass(name, n):
             su = Setup(name, n, True)
             runs = []
             for _rep in range(2):
-                res, s = su.execute(sched.explicit([i] * 100000), watch=watch)
-                runs.append([(k, d) for (t, k, d) in s.log if t == i and k in ('r', 'w') and not isinstance(d, str)])
+                res, s = su.execute(sched.explicit([i] * 100000), watch=watch, lines=lines)
+                runs.append([(k, d) for (t, k, d) in s.log if t == i and k in ('r', 'w', 'u') and not isinstance(d, str)])
             for k, d in runs[0]:
+                if k == 'u':
+                    continue
                 if k == 'w' and (d[0], d[1]) not in watch:
                     watch.add((d[0], d[1]))
                     grew = True
@@ -174,6 +180,9 @@ def prepass(name, n):
                 second[(k, d)] = second.get((k, d), 0) + 1
             prog, last_read = [], {}
             for k, d in runs[0]:
+                if k == 'u':
+                    prog.append({'op': 'u', 'c': 'line:%s:%d' % (d[1], d[2]), 'g': ''})
+                    continue
                 cell = '%s#%d.%s' % (d[0], d[2], d[1])
                 g = ''
                 if k == 'r':
@@ -196,7 +205,7 @@ _CTX = {}
 
 
 def _replay_access(job):
-    name, n, cooked, hist, watch, solo = job
+    name, n, cooked, hist, watch, solo, lines = job
     su = Setup(name, n, cooked)
     drift = []
     state = {'j': 0, 'started': 0}
@@ -218,7 +227,7 @@ def _replay_access(job):
             drift.append({'step': state['j'], 'model': a, 'code': 'thread not enabled'})
         return en[0]
     try:
-        res, s = su.execute(pol, watch=watch)
+        res, s = su.execute(pol, watch=watch, lines=lines)
     except sched.Deadlock as e:
         return {'bad': 'deadlock', 'detail': str(e)[:300], 'hist': hist}
     bad = [i for i in range(n) if res[i] != solo[i]]
@@ -261,9 +270,9 @@ def line_counts(name, n, cooked, watch):
     return out
 
 
-def fingerprint_prepass(name, watch):
+def fingerprint_prepass(name, watch, cooked=False):
     """solo, line mode: which lines change the shared compiled state, and did the access hooks see it?"""
-    su = Setup(name, 1, False)
+    su = Setup(name, 1, cooked)
     changes = []
     state = {'fp': None}
 
@@ -292,9 +301,20 @@ def main(tier):
     a_jobs, a_meta = [], []
     cases = []
     for name in SCENARIOS:
+        Setup(name, 1, True)          # warm the class-level command table (lazy imports happen once per process)
+    ulines = {}
+    for name in SCENARIOS:
+        watch0, _ = prepass(name, 2)
+        # shared state changed by a line without any hooked access: in-place updates of module- / class-level containers
+        ul = set()
+        for cooked in (True, False):
+            changes, _hs = fingerprint_prepass(name, watch0, cooked)
+            ul |= {(c[2][0], c[2][1]) for c in changes if c and c[1] == 'line'}
+        ulines[name] = sorted(ul)
+        summary.setdefault(name, {})['lines_updating_shared_containers'] = ['%s:%d' % u for u in ulines[name]]
         for n in (2, 3):
             solo = solo_results(name, n)
-            watch, progs = prepass(name, n)
+            watch, progs = prepass(name, n, ulines[name])
             summary.setdefault(name, {})['cells_written_after_publication'] = sorted('%s.%s' % w for w in watch)
             summary[name]['access_program_lengths'] = [len(p) for p in progs]
             if SCENARIOS[name].get('sub'):
@@ -325,7 +345,7 @@ def main(tier):
         if len(rest) > cap:
             rest = rng.sample(rest, cap)
         for e in cex[:2000] + rest:
-            a_jobs.append((name, n, cooked, e['hist'], [tuple(w) for w in watch], solo))
+            a_jobs.append((name, n, cooked, e['hist'], [tuple(w) for w in watch], solo, ulines[name]))
             a_meta.append((tid, bool(e['crash'] or e['foreign'])))
     drift_a = 0
     drift_samples, rejected_samples = [], []
@@ -408,22 +428,22 @@ def main(tier):
     # binding self-test: corrupted copies of recorded traces must be rejected by the specification
     n_real = len(tcases)
     corrupted = []
-    for c in tcases[:60]:
+    for c in [c for c in tcases if any(e[1] == 'wb' for e in c['trace'])][:60]:
         tr = c['trace']
         idx = [i for i, e in enumerate(tr) if e[1] in ('acq', 'wb')]
         if idx:
             k = idx[0]
-            corrupted.append(dict(c, trace=tr[:k] + tr[k + 1:]))                # one event dropped
+            corrupted.append(dict(c, trace=tr[:k] + tr[k + 1:], orig=tr))       # one event dropped
         wcs = [i for i, e in enumerate(tr) if e[1] == 'wc']
         wbs = [i for i, e in enumerate(tr) if e[1] == 'wb']
         if wcs and wbs:
             t2 = list(tr)
             t2[wbs[0]], t2[wcs[0]] = t2[wcs[0]], t2[wbs[0]]                     # publication order swapped
-            corrupted.append(dict(c, trace=t2))
+            corrupted.append(dict(c, trace=t2, orig=tr))
     tcases = tcases + corrupted
     accepted = rejected = 0
     selftest_rejected = 0
-    n_real = 0
+    selftest_accepted = []
     if tcases:
         verdicts = {}
 
@@ -443,8 +463,9 @@ def main(tier):
             v = verdicts.get(i)
             if i > n_real:
                 if v is not None and v['matched'] == v['len'] and not v['crash']:
-                    common.machinery_failure('binding self-test: a corrupted access trace was accepted by ObsConc: %s' % tc['trace'][:12])
-                selftest_rejected += 1
+                    selftest_accepted.append({'corrupted': tc['trace'][:14], 'from': tc.get('orig', [])[:14]})
+                else:
+                    selftest_rejected += 1
                 continue
             if v is not None and v['matched'] == v['len']:
                 accepted += 1
@@ -453,6 +474,8 @@ def main(tier):
                 if len(rejected_samples) < 4:
                     rejected_samples.append({'scenario': traces_for_tlc[i - 1][0][0], 'cooked': tc['cooked'], 'matched': v and v['matched'],
                                              'trace': tc['trace']})
+    if selftest_accepted and not V.violations:
+        common.machinery_failure('binding self-test: corrupted access traces were accepted by ObsConc: %s' % selftest_accepted[:2])
     # --- proviso: shared writes seen by fingerprinting vs by the hooks
     unseen = {}
     for name in SCENARIOS:
@@ -468,7 +491,7 @@ def main(tier):
            'schedules_from_TLC_replayed': V.counters.get('schedules_replayed_access', 0),
            'machine_counterexamples_replayed': model_cex, 'replays_with_drift': drift_a,
            'line_granularity_schedules': V.counters.get('schedules_line_granularity', 0),
-           'recorded_traces_accepted_by_TLC': accepted, 'binding_selftest_corrupted_traces_rejected': selftest_rejected, 'recorded_traces_rejected_by_TLC': rejected,
+           'recorded_traces_accepted_by_TLC': accepted, 'binding_selftest_corrupted_traces_rejected': selftest_rejected, 'binding_selftest_accepted': selftest_accepted[:3], 'recorded_traces_rejected_by_TLC': rejected,
            'scenarios': summary, 'exhaustive': False, 'shared_changes_not_seen_by_hooks': unseen, 'drift_samples': drift_samples, 'rejected_trace_samples': rejected_samples,
            'rule': '6 templates (in with sort_expr/reverse_expr, every block tag, batches, shared sub-template, restricted '
                    'expressions, %()s syntax) x compiled / compiling x 2-3 threads with per-thread namespaces; TLC: all access-level '
